@@ -8,7 +8,7 @@ from props.devs_common import coq_case, nontrivial, op_kinds, run_impl  # noqa: 
 
 ID = "C15"
 COQ_PROPERTY_FILE = "Properties/C15.v"
-COQ_DEPS = ["Generated/Tables.v", "Model/Devs.v", "Model/DevsSpec.v", "Proofs/DevsProofs.v"]
+COQ_DEPS = ["Generated/Tables.v", "Model/Devs.v", "Model/DevsSpec.v", "Proofs/DevsProofs.v", "Proofs/DevsChunkProofs.v", "Proofs/DevsStepProofs.v", "Proofs/DevsTopProofs.v"]
 COQ_IMPORTS = "From Mesa Require Import Generated.Tables Model.Devs."
 COQ_CASE_TYPE = "case"
 COQ_RUN = "run_case"
